@@ -24,6 +24,7 @@ type CReplay struct {
 	Files    map[string]string // path relative to the scratch module -> content (src/, ref/, reg)
 	Pkg      string
 	Scenario *driver.Scenario `json:",omitempty"`
+	Spec     *driver.Spec     `json:",omitempty"` // Kind "dead": the run that the function brought down
 	Class    string
 	Stage    string   `json:",omitempty"`
 	Msg      string   `json:",omitempty"`
@@ -123,7 +124,8 @@ func runProfile(j *core.Job, cc checkCfg) {
 				rep.Count("feature_"+ft, 1)
 			}
 		}
-		res := b.Run(driver.Spec{Prop: cc.prop, Oracle: cc.oracle, Seed: j.Seed, Batch: bn, ArgVecs: cc.argVecs, MaxFault: cc.maxFault, Samples: 2})
+		spec := driver.Spec{Prop: cc.prop, Oracle: cc.oracle, Seed: j.Seed, Batch: bn, ArgVecs: cc.argVecs, MaxFault: cc.maxFault, Samples: 2}
+		res := b.Run(spec)
 		for name, ds := range res.Sets {
 			for _, d := range ds {
 				rep.SetAdd(name, d)
@@ -146,6 +148,18 @@ func runProfile(j *core.Job, cc checkCfg) {
 			}
 			f := b.Prog.Find(m.Func)
 			sub := b.Prog.Subset(b.Prog.Closure(m.Func))
+			if m.Sc == nil {
+				// the function brought the run binary down: the replay plays this function's share
+				// of the batch again (same seed, same derived streams) and expects the same end
+				rep.Count("functions_that_brought_the_run_binary_down", 1)
+				sp := spec
+				sp.Only = m.Func
+				doc := &CReplay{Property: cc.prop, Layer: "C", Kind: "dead", Oracle: m.Oracle, Seed: j.Seed, Batch: bn, Func: m.Func,
+					Files: filesOf(sub), Pkg: "p", Spec: &sp, Class: m.Class, Observed: m.Observed, DiffAt: -1, IR: f}
+				path := ev.WriteReplay(cc.prop, int64(j.Seed), bn*1000+len(rep.Violations), doc)
+				rep.Violations = append(rep.Violations, ev.Violation{Prop: cc.prop, Class: fmt.Sprintf("%s in %s", m.Class, m.Func), Replay: path})
+				continue
+			}
 			doc := &CReplay{Property: cc.prop, Layer: "C", Kind: "history", Oracle: m.Oracle, Seed: j.Seed, Batch: bn, Func: m.Func,
 				Files: filesOf(sub), Pkg: "p", Scenario: m.Sc, Class: m.Class, Expected: m.Expected, Observed: m.Observed, DiffAt: m.DiffAt, IR: f}
 			if len(rep.Violations) == 0 {
